@@ -11,6 +11,7 @@ INVARIANT C05_Closed
 INVARIANT C07_NumeraireValueZero
 INVARIANT C07_RefusedWithoutExternal
 INVARIANT C08_OrderIndependent
+INVARIANT C18_ZoneIsolation
 INVARIANT PipelineIsRunAll
 INVARIANT C11_IllFormedRejected
 INVARIANT C11_WellFormedBuilds
